@@ -1,25 +1,63 @@
 //! drop-order / leak world (C12)
 //!
-//! Entry points used by `plan.rs` (keep these four signatures).
+//! Each program = one catalogue shape (built next to an independent "remaining" graph
+//! `var -> map -> observer` on the same state) x an initial condition
+//! {`fresh`: never stabilised, `stabilised`: one stabilise after construction, `dirty`:
+//! stabilised and then a variable of the shape written} x the number of droppable user handles
+//! (the shape's 3-4 base handles padded with extra clones: observer clone, var clone, ...).
+//!
+//! Shapes (16; `var_of_var` / `var_of_incr` / `var3` are the "var of var (of var)" entries of
+//! DESIGN §6): chain, diamond, bind_fresh, bind_own_input, var_of_var, var_of_incr, var3,
+//! self_map2, fold_dup, expert_join, expert_zip (expert node with edge callbacks), memo
+//! (`weak_memoize_fn`), subscription (callback owning an `Incr`), map_ref, closure_holds_var (node
+//! function owning a `Var` handle), shared_var (a second remaining graph hangs off the shape's
+//! variable node).
+//!
+//! Actions: `Drop(i)` for every live handle, `DropState`, and `Stabilise` -- enabled only
+//! directly after a drop and only while the state handle is held.  The generic BFS with
+//! `canon() == None` (no pruning, E1) therefore enumerates exactly: all permutations of
+//! dropping the handles and the state x a stabilise inserted or not after each drop.  The
+//! marker is written by the BFS before every history, so an abort (double panic) is attributed.
+//! A history is complete at depth `2 * (handles + 1)`; programs exhaust before the bound.
+//!
+//! Families (`hx dev drops <family> <depth>`); one unit = one program (48 units each):
+//!
+//! | family                | handles | depth | use      | measured single core (rel; dbg ~1.4x) |
+//! |-----------------------|--------:|------:|----------|----------------------------------------|
+//! | `c12/catalogue-small` |       4 |    10 | smoke    | 8.8e4 transitions, 1 s                 |
+//! | `c12/catalogue`       |       5 |    12 | quick    | 9.0e5 transitions (3.6e5 complete histories), 12 s |
+//! | `c12/catalogue-full`  |       6 |    14 | thorough | 1.1e7 transitions, ~180 s              |
+//! | `c12/catalogue-7`     |       7 |    16 | thorough, optional | 3.2e6 transitions / 140 s per unit, 48 units (shapes with fewer than 7 available handles use what they have) |
+//! | `c12/selftest`        |       3 |     8 | self-test of the oracles: the harness leaks a node on purpose; every complete history must report `C12.leak_*` (not part of a check) | |
+//!
+//! The `tier` argument is ignored (the family name selects the size).  Oracles: `world.rs`.
+
+pub mod world;
 
 use crate::core::{Cfg, Violation};
 use crate::explore::{Marker, Stats};
 use crate::plan::{JobDef, Tier};
 use serde_json::Value as Json;
 use std::time::Instant;
+use world::DropsWorld;
 
-pub fn units(_job: &JobDef, _tier: Tier) -> usize {
-    0
+pub fn units(job: &JobDef, _tier: Tier) -> usize {
+    crate::driver::units::<DropsWorld>(&world::family(&job.family), job)
 }
 
-pub fn run_unit(_job: &JobDef, _job_ix: u32, _unit: usize, _tier: Tier, _deadline: Option<Instant>, _marker: &Marker, stats: &mut Stats) {
-    stats.machinery_errors.push("world not implemented".into());
+pub fn run_unit(job: &JobDef, job_ix: u32, unit: usize, _tier: Tier, deadline: Option<Instant>, marker: &Marker, stats: &mut Stats) {
+    let p = world::family(&job.family);
+    if p.is_empty() {
+        stats.machinery_errors.push(format!("drops: unknown family {}", job.family));
+        return;
+    }
+    crate::driver::run_unit::<DropsWorld>(&p, job, job_ix, unit, deadline, marker, stats)
 }
 
-pub fn replay(_cfg: &Cfg, _prog: &Json, _history: &[Json]) -> Result<(Vec<(usize, Violation)>, Vec<String>, u64), String> {
-    Err("world not implemented".into())
+pub fn replay(cfg: &Cfg, prog: &Json, history: &[Json]) -> Result<(Vec<(usize, Violation)>, Vec<String>, u64), String> {
+    crate::driver::replay::<DropsWorld>(cfg, prog, history)
 }
 
-pub fn history_from_choices(_job: &JobDef, _unit: usize, _tier: Tier, _choices: &[u16]) -> Option<(Json, Vec<Json>)> {
-    None
+pub fn history_from_choices(job: &JobDef, unit: usize, _tier: Tier, choices: &[u16]) -> Option<(Json, Vec<Json>)> {
+    crate::driver::history_from_choices::<DropsWorld>(&world::family(&job.family), job, unit, choices)
 }
